@@ -20,7 +20,7 @@ description strings; method strings derived from the name set (exact, prefix, ex
 elements, leading/trailing dot, no dot, built-in interface) x arbitrary JSON parameters x flag combinations. \
 Oracle: independent routing function (split at the last dot, set lookup) + what each recorder saw. Recorder descriptions vary in shape (no final newline, several, CRLF, trailing blanks, leading blank lines) and must come back byte for byte. Non-trivial: \
 the called interface name is a proper prefix / extension / case variant of a registered name, or the method string \
-is malformed (empty element, leading/trailing dot, no dot); distinct by (name set, method string).";
+is malformed (empty element, leading/trailing dot, no dot); distinct by (name set, method string). For one case in five a call to one of the registered interfaces travels in front of the case in the same buffer (its name is a prefix, an extension or a case variant of the others).";
 
 type Log = Arc<Mutex<Vec<(String, Value)>>>;
 
@@ -268,7 +268,20 @@ pub fn run_case(c: &Case) -> Result<(), Fail> {
     // for one case in five another call travels in front of it in the same buffer: a method name without
     // a dot (answered with InterfaceNotFound; the call behind it is routed as if it had come alone)
     let prefixed = hash64(&c.method) % 5 == 0;
-    let buffer: Vec<u8> = if prefixed { [encode(&json!({"method": "nodot"}), Style::Compact), bytes.clone()].concat() } else { bytes.clone() };
+    // for another case in five a call to one of the registered recorders travels in front (the names are
+    // related: prefixes and extensions of one another)
+    let front: Option<String> = if !prefixed && hash64(&c.method) % 5 == 1 && !c.names.is_empty() {
+        Some(c.names[(hash64(&(&c.method, "front")) % c.names.len() as u64) as usize].clone())
+    } else {
+        None
+    };
+    let buffer: Vec<u8> = if prefixed {
+        [encode(&json!({"method": "nodot"}), Style::Compact), bytes.clone()].concat()
+    } else if let Some(f) = &front {
+        [encode(&json!({"method": format!("{}.Warmup", f), "parameters": {"w": 1}}), Style::Compact), bytes.clone()].concat()
+    } else {
+        bytes.clone()
+    };
     let run = run_chunks(&service, &[&buffer]);
     if let Some(p) = &run.panicked {
         return Err(Fail::new("route/panic", format!("handle() panicked: {}", p)));
@@ -295,7 +308,27 @@ pub fn run_case(c: &Case) -> Result<(), Fail> {
             }
         }
     }
-    let seen = log.lock().unwrap().clone();
+    let mut seen = log.lock().unwrap().clone();
+    if let Some(f) = &front {
+        // the call in front went to its own recorder and got that recorder's reply; what follows is judged
+        // as if the case had come alone
+        match seen.first() {
+            Some((who, req)) if who == f && req["method"] == json!(format!("{}.Warmup", f)) => {
+                seen.remove(0);
+            }
+            other => {
+                return Err(Fail::new("route/front-call-not-routed", format!("the call `{}.Warmup` in front of the case was seen by {:?}", f, other.map(|s| &s.0))));
+            }
+        }
+        match replies.first() {
+            Some(r) if r.get("error").is_none() && r["parameters"]["seen_by"] == json!(f) => {
+                replies.remove(0);
+            }
+            other => {
+                return Err(Fail::new("route/front-call-reply", format!("the call `{}.Warmup` in front of the case was answered with {:?}", f, other)));
+            }
+        }
+    }
     let oneway = c.flags[1] == 1;
     let more = c.flags[0] == 1;
     let closed = run.err.is_some();
